@@ -356,6 +356,8 @@ package task
 //@   loop 2 invariant lastFailed ==> t.IgnoreError && curExit                                         [C03,C06,C01]
 //@   ensures result == nil && lastFailed ==> t.IgnoreError && curExit                                 [C03,C06,C01]
 
+//@ ghost var wrOut io.Writer scratch
+//@ ghost var wrErr io.Writer scratch
 //@ func (*Executor).runCommand
 //@   modifies heap, fs_exists, fs_ver
 //@   preserves $RUNDATA
@@ -376,13 +378,19 @@ package task
 //@   init shErr := nil
 //@   site execext.RunCommand#1 ghost shErr := result
 //@   site result.2:(Output).WrapWriter#0 requires arg0 == shErr     -- the closer learns how the command ended         [C17]
+// the command writes into the very writers the output style handed out - nothing is put in between: the group and the
+// prefixed style hand out ONE writer for both streams, and only while the two are the same value does the program get
+// one pipe for both (two wrappers make two pipes, drained by two goroutines into one unsynchronised buffer)
+//@   site (Output).WrapWriter#1 ghost wrOut := result.0
+//@   site (Output).WrapWriter#1 ghost wrErr := result.1
+//@   site execext.RunCommand#0 requires arg1.Stdout == wrOut && arg1.Stderr == wrErr                   [C17,C18]
 //@   site IsExitStatus#1 ghost shExit := result.1
 //@   ensures result == nil && shFailed ==> shExit && t.Cmds[i].IgnoreError                             [C03]
 // ... and ignore_error on the command covers every exit status (1..255) of that command
 //@   ensures shFailed && shExit && t.Cmds[i].IgnoreError ==> result == nil                             [C03]
 //@   ensures nestFailed ==> result != nil     -- whatever made the called task fail (a command, a guard, the call limit that ends a cycle) fails the caller   [C03,C07,C13]
 
-// A deferred entry runs with a context that is NOT derived from the (possibly cancelled) task context, sees
+// A deferred entry runs with a context that is NOT cancelled with the (possibly cancelled) task context, sees
 // EXIT_CODE only when a command failed, and its own failure is swallowed (the function returns nothing).
 //@ ghost var bgCtx context.Context scratch
 //@ ghost var ownCtx context.Context scratch
@@ -555,6 +563,14 @@ package task
 //@   site fingerprint.WithMethod#0 requires arg0 == (t.Method != "" ? t.Method : e.Taskfile.Method)  [C04]
 //@   site fingerprint.WithTempDir#0 requires arg0 == e.TempDir.Fingerprint                            [C04]
 //@   site fingerprint.IsTaskUpToDate#1 ghost fpTouched := !e.Dry
+// the fingerprint is consulted - and thereby RECORDED - once per execution, through IsTaskUpToDate, before any command
+// of the task has been started: a second look after the commands (for a hint, a statistic) would record the sources
+// again, also for an attempt that failed and whose record statusOnError has just removed
+//@   site fingerprint.IsTaskUpToDate#0 requires !fpTouched && !attempted                                [C04,C05,C12]
+//@   nosite (SourcesCheckable).IsUpToDate                                                               [C04,C05]
+//@   nosite (*ChecksumChecker).IsUpToDate                                                               [C04,C05]
+//@   nosite (*TimestampChecker).IsUpToDate                                                              [C04,C05]
+//@   nosite (StatusCheckable).IsUpToDate                                                                [C04,C05]
 // C01: "up to date" lets a caller go on at once - its dependants start - so it must not be the answer while another
 // call of the same task is still running the commands that make it true. The fingerprint is recorded BEFORE the
 // commands run, and nothing excludes a second, concurrent call (two tasks that both depend on a run: always task
@@ -740,6 +756,10 @@ package task
 //@ state_fields Compiler: dynamicCache except (*Executor).setupCompiler                                           [C11,C18]
 // watch mode: the cache of dynamic variables is dropped by the event loop itself (watchTasks$2), for every event it
 // acts on, before any task is restarted - not by the per-task goroutines, not behind a filter
+// while an Executor is set up the variables of the Taskfile are resolved for ONE purpose - the names of the dotenv files,
+// which may be templated - and nowhere else: set-up runs before the command line's NAME=value assignments are laid over
+// the Taskfile's variables, so whatever is evaluated (and remembered) there is evaluated without them
+//@ callers (*Compiler).GetTaskfileVariables : (*Executor).readDotEnvFiles                                           [C10,C11]
 //@ callers (*Compiler).ResetCache : (*Executor).watchTasks$2                                                       [C11]
 //@ state_fields globals: except init* experiments.Parse experiments.New                                           [C11,C18]
 
@@ -943,6 +963,10 @@ package task
 //@   ensures result != nil                                                                                     [C16,C10]
 //@ func (*Compiler).getVariables$1$1
 //@   site templater.ReplaceVar#0 requires arg0.Live == nil                                                     [C19]
+// every variable is rendered against ALL the variables resolved so far - whichever layer, whichever of the two range
+// functions put them there: the template data is made for this one variable, from the result as it is now (data kept
+// from an earlier variable does not know what the other range function has added since - the variables of the call)
+//@   site templater.ReplaceVar#0 requires fresh(arg1) && arg1.Vars == result                                   [C02,C10,C11]
 // every variable handed to the range function is PUT into the result, under its own name, whenever the function
 // returns without an error: that a later layer overrides an earlier one - the process environment, layer 0, included -
 // is all there is to the precedence of variables (no variable is skipped because something of that name exists already)
